@@ -13,6 +13,11 @@ def symexec(func, path):
     env = {}
     out = []
     for ev in func.path_events(path):
+        if ev.kind == 'loophead':
+            # the path stands for an arbitrary iteration: loop-carried locals are unknown here
+            for v in ev.args:
+                env[v] = fresh(v, 'loop%d' % ev.block)
+            continue
         out.append((ev, dict(env)))
         if ev.kind == 'store' and ev.lhs.k == 'ref' and ev.lhs.dk in ('var', 'parm', 'svar'):
             name = ev.lhs.s
